@@ -2,7 +2,8 @@
 //
 // spec -> impl: every edge of RWMutex.tla's complete state graph (4 owners) is replayed on a real
 // litefs.RWMutex and the projection compared after the step; blocking Lock/RLock scenarios are
-// derived from the edges on which availability flips.
+// derived from the edges on which availability flips; each of them is run again with the waiter's
+// context ended at every point RWMutexCancel.tla distinguishes (cancel.go).
 // impl -> spec: goroutines hammer one real RWMutex (race detector on), the call/return log is
 // validated by RWMutexTrace.tla (TLC searches a linearisation).
 package main
@@ -210,6 +211,9 @@ func main() {
 	rep.Extra["blocking_scenarios"] = nblock
 	rep.Extra["edges_replayed"] = len(edges)
 	rep.TracesValidated += int64(len(edges) + nblock)
+
+	// ---- 3b. blocking calls whose context ends at chosen points (RWMutexCancel.tla, cancel.go) ----
+	rep.TracesValidated += int64(cancelStage(rep, args, edges))
 
 	// ---- 4. concurrent traces validated by TLC ----
 	rounds := core.Pick(args, 12, 120)
@@ -511,6 +515,13 @@ func replay(rep *core.Report, path string) {
 	}
 	if err := json.Unmarshal(b, &f); err != nil {
 		core.Infra("parse replay: %v", err)
+	}
+	var cc struct {
+		Replay cancelCase `json:"replay"`
+	}
+	if err := json.Unmarshal(b, &cc); err == nil && cc.Replay.CancelAt != "" {
+		replayCancel(rep, &cc.Replay)
+		return
 	}
 	if f.Replay.TraceFile != "" {
 		tb, err := os.ReadFile(f.Replay.TraceFile)
